@@ -164,19 +164,21 @@ NewSlots(pre, post) ==
 
 -----------------------------------------------------------------------------
 (* C01: a scheduled pulse is within the limits of its channel *)
-PulseWithinLimits(cfg, c, op) ==
+PulseWithinLimitsX(cfg, c, op, avgToo) ==
   LET w == op.w
       d == op.tf - op.ti
   IN
   /\ w[10] = 1                                              \* finite samples
   /\ cfg.maxAmp # -1 => w[4] <= cfg.maxAmp
   /\ cfg.maxDet # -1 => w[8] <= cfg.maxDet
-  /\ (w[5] = 0 \/ w[5] >= cfg.minAvg \/ w[5] < 0)
+  /\ (avgToo => (w[5] = 0 \/ w[5] >= cfg.minAvg \/ w[5] < 0))
   /\ d % cfg.clock = 0 /\ d >= cfg.minDur /\ (cfg.maxDur # -1 => d <= cfg.maxDur)
   /\ cfg.kind = "dmm" =>
         /\ w[11] <= 0
         /\ cfg.bottom # NoLim => c.mp[1] * w[9] >= 2 * cfg.bottom
         /\ cfg.tbottom # NoLim => c.mp[2] * w[9] >= 2 * cfg.tbottom
+
+PulseWithinLimits(cfg, c, op) == PulseWithinLimitsX(cfg, c, op, TRUE)
 
 FactsWithinLimits(cfg, P) ==
   /\ P.fin
@@ -345,10 +347,18 @@ Viol(pre, c, r, h) ==
   \cup (IF \E x \in NewSlots(pre, post) : post.ch[x[1]].sl[x[2]].k = "p" /\ post.ch[x[1]].sl[x[2]].tg = 0
         THEN {"C13.TargetBeforePulse"} ELSE {})
   \* ---- C01 -------------------------------------------------------------
-  \cup (IF \E x \in NewSlots(pre, post) :
-             LET op == post.ch[x[1]].sl[x[2]] IN
-             op.k = "p" /\ ~PulseWithinLimits(CfgOf(post, x[1]), post.ch[x[1]], op)
-        THEN {"C01.WithinLimits"} ELSE {})
+  \* reported under its own name: the only limit broken is the minimum average amplitude, by a pulse
+  \* that was itself inside every limit and has been lengthened to the clock (area-preserving shapes)
+  \cup (LET Bad == {x \in NewSlots(pre, post) :
+                     LET op == post.ch[x[1]].sl[x[2]] IN
+                     op.k = "p" /\ ~PulseWithinLimits(CfgOf(post, x[1]), post.ch[x[1]], op)}
+             Stretch(x) == LET op == post.ch[x[1]].sl[x[2]] IN
+                           /\ c.op = "add" /\ ok /\ i = x[1] /\ x[2] = Len(post.ch[i].sl)
+                           /\ PulseWithinLimitsX(CfgOf(post, x[1]), post.ch[x[1]], op, FALSE)
+                           /\ op.tf - op.ti > Pulses[c.p].dur
+                           /\ FactsWithinLimits(cfgi, Pulses[c.p])
+         IN (IF \E x \in Bad : ~Stretch(x) THEN {"C01.WithinLimits"} ELSE {})
+            \cup (IF \E x \in Bad : Stretch(x) THEN {"C01.MinAvgAfterStretch"} ELSE {}))
   \cup (IF DevOf(post).maxSeq # -1 /\ \E j \in 1..Len(post.ch) : ChanDur(post.ch[j]) > DevOf(post).maxSeq
         THEN {"C01.SeqDuration"} ELSE {})
   \cup (IF c.op = "add" /\ ok
@@ -426,13 +436,16 @@ Viol(pre, c, r, h) ==
         THEN {"C15.EomSquare"} ELSE {})
   \cup (IF ok /\ i # 0 /\ c.op \in {"eom_on", "eom_mod", "eom_off"} /\ ~BuffersOK(pre, post, c, i)
         THEN {"C15.Buffers"} ELSE {})
-  \* the mode of every channel is the one its successful enable / disable calls document
+  \* the mode of every channel is the one its successful enable / disable calls document; charged to
+  \* the step that introduces the disagreement (the channel agreed with its calls before the step)
   \cup (IF post.bld
            /\ \E j \in 1..Len(post.ch) :
                  LET nmj == post.ch[j].nm
+                     jp == ChIdx(pre, nmj)
                      doc == IF rawOk /\ c.op \in {"eom_on", "eom_off"} /\ c.nm = nmj
                             THEN c.op = "eom_on" ELSE DocEom(h, nmj)
-                 IN InEom(post.ch[j]) # doc
+                 IN /\ InEom(post.ch[j]) # doc
+                    /\ (jp = 0 \/ InEom(pre.ch[jp]) = DocEom(h, nmj))
         THEN {"C13.EomModeFollowsCalls"} ELSE {})
   \cup (IF cpd /\ ok /\ i # 0 /\ c.op \in {"eom_add", "eom_off", "eom_on", "eom_mod"}
         THEN LET e == ExpectedDriftShift(pre, post, c, i)
